@@ -54,13 +54,14 @@ CHECKS = {
    technique="contract-based deductive verification (Kani assume-pre/call/assert-post contracts inside the real crate, full input domain, loop-free or width-bounded)",
    ref="§4.4"),
  'C20': dict(
-   text="Proof (span-recording layer only): Verus contracts on the real BytecodeBuilder::emit and every other builder method - the position attached to an instruction is "
+   text="Proof (span-recording, lexer-position and trace-assembly layers only): Verus contracts on the real BytecodeBuilder::emit and every other builder method - the position attached to an instruction is "
         "the span current at emission (lookup(source_map, index).start == current_span.start), emitting never disturbs earlier instructions' spans, no other method touches "
         "the map, finish moves it unchanged, get_source_location == lookup for every sorted map; Kani contracts on Lexer::advance for every Unicode scalar value "
         "(line/column/byte stepping, LF/LS/PS), make_span, Parser::span_from and Parser::error; bounded Kani harnesses for checkpoint/restore; a bounded native enumeration (all sources of length <= 5 over 15 symbols) "
-        "for token spans and the parser's two re-scan entry points, which Kani could not decide; a side battery (266 fault-planted programs x layouts) links the layer to reported traces (testing, not proof).",
+        "for token spans and the parser's two re-scan entry points, which Kani could not decide; a Verus contract on the real BytecodeVM::build_stack_trace (result == running activation, then every suspended caller "
+        "innermost first, each once, each located/named/filed by its own chunk); a side battery (about 640 fault-planted programs x layouts x call shapes) links the layers to reported traces (testing, not proof).",
    note="Trusted: Verus+Z3, Kani/CBMC, Option::is_none_or std contract. NOT carried: parser token->AST spans, compile_* calling set_span with the node being compiled, "
-        "build_stack_trace's frame walk and function names, error formatting (DESIGN §4.2). checkpoint/restore and the token-span enumeration are BOUNDED stand-ins, never counted as proved.",
+        "trace propagation across nested VMs, error formatting (DESIGN §4.2). build_stack_trace: iter().rev() rewritten to an index loop (rule R11, trusted), carried types opaque. checkpoint/restore and the token-span enumeration are BOUNDED stand-ins, never counted as proved.",
    technique="contract-based deductive verification (Verus postconditions + frame conditions on in-place annotated real code; Kani contracts for lexer stepping)",
    ref="§4.2"),
  'C15': dict(
